@@ -2393,11 +2393,15 @@ static const char *wxnames[WX_N] = {
 };
 enum {
 	HX_NONE = 0, HX_PATH, HX_METHOD, HX_HTTP10, HX_NOUPGRADE, HX_NOKEY, HX_VERSION, HX_SUBPROTO_WRONG, HX_SUBPROTO_NONE,
-	HX_LONGLINE, HX_NOCOLON, HX_LF, HX_GARBAGE, HX_MANYHDR, HX_BODY, HX_N
+	HX_LONGLINE, HX_NOCOLON, HX_LF, HX_GARBAGE, HX_MANYHDR, HX_BODY,
+	// token lists in Connection / Upgrade (valid HTTP; whether nng takes them as
+	// an upgrade is C16's business - here they must not wedge anything)
+	HX_CONN_LIST, HX_CONN_LIST_NOSP, HX_CONN_LIST_LAST_OTHER, HX_CONN_OTHERS_ONLY, HX_UPG_LIST, HX_UPG_LIST_EMPTY_ELEMS, HX_N
 };
 static const char *hxnames[HX_N] = {
 	"", "http-path", "http-method", "http-1.0", "http-no-upgrade", "http-no-key", "http-version-12", "http-subproto-wrong", "http-subproto-none",
 	"http-long-line", "http-no-colon", "http-lf-only", "http-garbage", "http-many-headers", "http-body",
+	"http-connection-list", "http-connection-list-no-blank", "http-connection-list-upgrade-first", "http-connection-others-only", "http-upgrade-list", "http-list-empty-elements",
 };
 
 static void
@@ -2433,8 +2437,10 @@ render_http(const victim *v, int hx, vf_rng *r, bbuf *out)
 			bb_str(out, line);
 		}
 	}
-	if (hx != HX_NOUPGRADE) { bb_str(out, "Upgrade: websocket"); bb_str(out, nl); }
-	bb_str(out, "Connection: Upgrade"); bb_str(out, nl);
+	if (hx != HX_NOUPGRADE) { bb_str(out, hx == HX_UPG_LIST ? "Upgrade: h2c, websocket" : hx == HX_UPG_LIST_EMPTY_ELEMS ? "Upgrade: , ,websocket, " : "Upgrade: websocket"); bb_str(out, nl); }
+	bb_str(out, hx == HX_CONN_LIST ? "Connection: keep-alive, Upgrade" : hx == HX_CONN_LIST_NOSP ? "Connection: keep-alive,Upgrade" : hx == HX_CONN_LIST_LAST_OTHER ? "Connection: Upgrade, keep-alive" :
+	    hx == HX_CONN_OTHERS_ONLY ? "Connection: keep-alive, close, TE" : hx == HX_UPG_LIST_EMPTY_ELEMS ? "Connection: ,, keep-alive , ,Upgrade" : "Connection: Upgrade");
+	bb_str(out, nl);
 	if (hx != HX_NOKEY) { bb_str(out, "Sec-WebSocket-Key: dGhlIHNhbXBsZSBub25jZQ=="); bb_str(out, nl); }
 	snprintf(line, sizeof(line), "Sec-WebSocket-Version: %s%s", hx == HX_VERSION ? "12" : "13", nl);
 	bb_str(out, line);
@@ -2451,12 +2457,12 @@ render_http(const victim *v, int hx, vf_rng *r, bbuf *out)
 enum {
 	RX_NONE = 0, RX_STATUS_200, RX_STATUS_404, RX_STATUS_400, RX_STATUS_500, RX_STATUS_TEXT, RX_HTTP10, RX_NO_ACCEPT, RX_BAD_ACCEPT, RX_DUP_ACCEPT,
 	RX_NO_UPGRADE, RX_NO_CONNECTION, RX_SUBPROTO_WRONG, RX_SUBPROTO_NONE, RX_LONGLINE, RX_NOCOLON, RX_LF, RX_GARBAGE, RX_MANYHDR,
-	RX_BODY, RX_CHUNKED, RX_NO_REASON, RX_N
+	RX_BODY, RX_CHUNKED, RX_NO_REASON, RX_CONN_LIST, RX_UPG_LIST, RX_N
 };
 static const char *rxnames[RX_N] = {
 	"", "http-resp-200", "http-resp-404", "http-resp-400", "http-resp-500", "http-resp-status-text", "http-resp-1.0", "http-resp-no-accept", "http-resp-bad-accept", "http-resp-dup-accept",
 	"http-resp-no-upgrade", "http-resp-no-connection", "http-resp-subproto-wrong", "http-resp-subproto-none", "http-resp-long-line", "http-resp-no-colon", "http-resp-lf-only", "http-resp-garbage", "http-resp-many-headers",
-	"http-resp-body", "http-resp-chunked", "http-resp-no-reason",
+	"http-resp-body", "http-resp-chunked", "http-resp-no-reason", "http-resp-connection-list", "http-resp-upgrade-list",
 };
 
 static void
@@ -2495,8 +2501,8 @@ render_http_response(int rx, const char *key, const char *subproto, vf_rng *r, b
 			bb_str(out, line);
 		}
 	}
-	if (rx != RX_NO_UPGRADE) { bb_str(out, "Upgrade: websocket"); bb_str(out, nl); }
-	if (rx != RX_NO_CONNECTION) { bb_str(out, "Connection: Upgrade"); bb_str(out, nl); }
+	if (rx != RX_NO_UPGRADE) { bb_str(out, rx == RX_UPG_LIST ? "Upgrade: h2c, websocket" : "Upgrade: websocket"); bb_str(out, nl); }
+	if (rx != RX_NO_CONNECTION) { bb_str(out, rx == RX_CONN_LIST ? "Connection: keep-alive, Upgrade" : "Connection: Upgrade"); bb_str(out, nl); }
 	if (rx != RX_NO_ACCEPT) {
 		snprintf(line, sizeof(line), "Sec-WebSocket-Accept: %s%s", accept, nl);
 		bb_str(out, line);
